@@ -21,7 +21,7 @@ EXPLANATION = ('The placement set is invariant under the group iff (a) copies ar
 PI = Fraction(math.pi)
 
 
-def run(ctx):
+def _run_rules(ctx):
     rep, f = ctx.rep, ctx.facts
     rep.trust('pk/tables.py triplet reader; pk/celltables.py lifting; C15 (composition order, wrap) and C16 (tables are the groups)')
     # R1/R2 imported: run the C15 composition clause here too (cheap) so that C04 stands alone
@@ -149,3 +149,10 @@ def run(ctx):
     # point-group signatures) are a necessary condition of "has the symmetry of its wallpaper group" (imported)
     from .common import import_obligations
     import_obligations(ctx, 'C16', 'R5', only_rules={'R1', 'R2', 'R3'}, floor=20)
+
+
+def run(ctx):
+    _run_rules(ctx)
+    from .common import import_obligations
+    # the Cartesian map the symmetry argument is stated in: lattice vectors A, B (C14.R1)
+    import_obligations(ctx, 'C14', 'LATTICE', only_rules={'R1'}, floor=3)
